@@ -30,6 +30,7 @@ RULE = (
     "display_inverse; polynomial(to_sympy(p)) model-equal (1e-12) for 0-d int/float p under every display setting. "
     "non-trivial = >= 3 printed terms of which two share a total degree, or a coefficient in {-1, +1, complex, negative float}."
 )
+LEVEL_TEXT += (" The sympy round trip runs under every generated display setting (exponent and multiplication signs included).")
 ASSUMPTIONS = [
     "which direction display_inverse prints is not asserted, only that it reverses the order",
     "the whitespace multiply sign is only used for 0-d polynomials and repr (str separates elements by whitespace)",
